@@ -31,6 +31,7 @@ type FuncSpec struct {
 	Clauses     []*Clause
 	Tags        []string
 	Inline      bool
+	Prefer      string // solver to try first for this function (the others follow in the usual order)
 	Trusted     bool
 	Pure        bool
 	HasMods     bool
@@ -162,7 +163,7 @@ func NewSpecDB() *SpecDB {
 }
 
 var clauseKW = map[string]bool{"requires": true, "ensures": true, "ghostensures": true, "modifies": true, "decreases": true, "loop": true,
-	"inline": true, "trusted": true, "pure": true, "tag": true, "noframe": true, "opaque": true, "unclaimed": true, "let": true, "letpost": true, "oncallback": true, "insertonly": true, "freshfields": true, "deletesites": true}
+	"inline": true, "trusted": true, "pure": true, "tag": true, "noframe": true, "opaque": true, "unclaimed": true, "let": true, "letpost": true, "oncallback": true, "insertonly": true, "freshfields": true, "deletesites": true, "prefer": true}
 var topKW = map[string]bool{"func": true, "functype": true, "extern": true, "pred": true, "table": true, "specfn": true,
 	"axiom": true, "lemma": true, "ghostfield": true, "iface": true, "const": true, "ghostvar": true, "globalinv": true, "guardedby": true, "readers": true, "writers": true, "callers": true, "globalwriters": true, "mapranges": true, "equiv": true}
 
@@ -395,6 +396,11 @@ func (db *SpecDB) LoadFile(path string, pkg string) error {
 			cur.Opaque = true
 		case "noframe":
 			cur.NoFrame = true
+		case "prefer":
+			if cur == nil {
+				return fail("prefer outside a function contract")
+			}
+			cur.Prefer = strings.TrimSpace(rest)
 		case "pure":
 			cur.Pure = true
 			cur.HasMods = true
